@@ -16,12 +16,12 @@ import (
 
 func init() {
 	simrt.Register(&simrt.Scenario{
-		Prop: "C06", Name: "heal", Count: tiered(3000, 40000),
+		Prop: "C06", Name: "heal", Count: tiered(3000, 320000),
 		Run: func(rc *simrt.RunCtx) { c06Run(rc, false) }, MaxOps: 4 << 20, Horizon: 30 * time.Hour,
 		Doc: "clean handshake, fault prefix of tape-chosen length (random loss/dup/delay, blackouts), reliable suffix; liveness oracles evaluated at a horizon after the last fault",
 	})
 	simrt.Register(&simrt.Scenario{
-		Prop: "C06", Name: "tail-loss", Count: tiered(2000, 30000),
+		Prop: "C06", Name: "tail-loss", Count: tiered(2000, 240000),
 		Run: func(rc *simrt.RunCtx) { c06Run(rc, true) }, MaxOps: 4 << 20, Horizon: 30 * time.Hour,
 		Doc: "same, but the fault prefix is exactly: the last packet(s) of a burst are lost, then the application goes silent; resend timeouts drawn below, at and above the peer's ping interval",
 	})
